@@ -904,7 +904,7 @@ Proof.
       split; [exact L|]. split; [eapply frameL_trans; [apply frameL_word|exact F]|].
       unfold cnt_def. rewrite W, W0. reflexivity.
     + inversion E; subst. split; [|split; [apply frameL_word|unfold cnt_def; now rewrite W0]].
-      constructor; auto. split; auto. exact I.
+      constructor; auto. split; auto.
   - assert (G : gc_step m t (PRun c0 (KLock q (LPWait wp))) c = c) by (eapply gc_wait; eauto).
     rewrite G. cbn [pstep] in E. cbn in Hk. unfold pstate in B. cbn in B.
     destruct (wait_step m t q wp) as [m1 r] eqn:Ws.
@@ -937,7 +937,7 @@ Proof.
   destruct r as [wp'| |]; [| |destruct R].
   - inversion E; subst. split; [|split; [apply frameT_L; exact F|unfold cnt_def; now rewrite (fr_word _ _ _ F)]].
     destruct R as (R1 & R2 & R3). constructor; auto.
-    + split; auto. destruct c0; try discriminate Hc. exact Hc.
+    + split; auto.
     + now rewrite (fr_sched _ _ _ F).
     + now rewrite (fr_mpmc _ _ _ F).
     + now rewrite (fr_wait _ _ _ F).
@@ -947,3 +947,166 @@ Proof.
     split; [exact L|]. split; [eapply frameL_trans; [apply frameT_L; exact F|exact F2]|].
     unfold cnt_def. rewrite W, (fr_word _ _ _ F). reflexivity.
 Qed.
+
+Lemma unlock_client c0 q up : cphase_okb c0 (KUnlock q up) = true ->
+  plain_client c0 = true /\ q <> COND /\ forall up', cphase_okb c0 (KUnlock q up') = true.
+Proof.
+  destruct c0; cbn; try discriminate; destruct q as [|[|?]]; try discriminate; intros H;
+    repeat split; auto; discriminate.
+Qed.
+
+Lemma st12_or s s' : st12 s -> s' = s \/ s' = ST_READY -> st12 s'.
+Proof. intros H [->| ->]; auto. right; reflexivity. Qed.
+
+Lemma pstep0_unlock m c t c0 q up m' p' :
+  linv0 m c t (PRun c0 (KUnlock q up)) -> pstep m t (PRun c0 (KUnlock q up)) = (m', p') ->
+  step0_goal m c t (PRun c0 (KUnlock q up)) m' p'.
+Proof.
+  intros [[Hc Hk] B H1 H2 H3 H4 H5] E.
+  destruct (unlock_client _ _ _ Hc) as (P & Hq & Hc').
+  assert (PP : forall um p k, c0 <> CS2 um p k /\ c0 <> CB2 um p k).
+  { intros; split; intros ->; discriminate P. }
+  unfold pstate in B. cbn in B.
+  unfold step0_goal. destruct up as [|wc kp|sp].
+  - assert (G : gc_step m t (PRun c0 (KUnlock q UPAdd)) c = c).
+    { apply gc_nosched; [reflexivity|]. intros c1 kp1 Q. inversion Q; subst; auto. }
+    rewrite G. cbn [pstep] in E.
+    assert (W0 : word (set_word m q (word m q + 1)) COND = word m COND).
+    { cbn. now rewrite upd_other by auto. }
+    destruct (word m q + 1 =? 1).
+    + destruct (ret0 _ _ _ _ _ _ c E ltac:(eauto)) as (L & F & W); auto.
+      { intros um p k Q. destruct (PP um p k); contradiction. } { intros um p k Q. destruct (PP um p k); contradiction. }
+      split; [exact L|]. split; [eapply frameL_trans; [apply frameL_word|exact F]|].
+      unfold cnt_def. rewrite W, W0. reflexivity.
+    + inversion E; subst. split; [|split; [apply frameL_word|unfold cnt_def; now rewrite W0]].
+      constructor; auto. split; auto.
+  - cbn [pstep] in E. cbn in Hk.
+    destruct (wake_step m t q 1 wc kp false) as [m1 r] eqn:Ws.
+    destruct (wake_step0 _ _ _ _ _ _ _ _ _ Ws (fun _ => B) Hk) as (F & R).
+    destruct (frame0_own t _ _ F) as [O1 O2].
+    assert (G : gc_step m t (PRun c0 (KUnlock q (UPWake wc kp))) c = c).
+    { destruct (sched_now m (PRun c0 (KUnlock q (UPWake wc kp)))) as [[q1 f]|] eqn:S.
+      - eapply gc_sched_mutex; eauto.
+        + unfold sched_now in S. cbn in S. destruct (sched_of m kp); inversion S; subst; auto.
+        + intros c1 kp1 Q. inversion Q; subst; auto.
+      - apply gc_nosched; auto. intros c1 kp1 Q. inversion Q; subst; auto. }
+    rewrite G. pose proof (frame0_T t _ _ F) as FT.
+    assert (B' : st12 (fstate m1 t)) by (eapply st12_or; eauto).
+    destruct r as [wc' kp'|v|]; [| |destruct R]; inversion E; subst.
+    + split; [|split; [apply frameT_L; exact FT|unfold cnt_def; now rewrite (fr_word _ _ _ FT)]].
+      constructor; auto.
+      * split; auto.
+      * now rewrite (fr_sched _ _ _ FT).
+      * now rewrite (fr_mpmc _ _ _ FT).
+      * now rewrite (fr_wait _ _ _ FT).
+      * intros q0. rewrite O2. auto.
+    + split; [|split; [apply frameT_L; exact FT|unfold cnt_def; now rewrite (fr_word _ _ _ FT)]].
+      constructor; auto.
+      * split; auto.
+      * now rewrite (fr_sched _ _ _ FT).
+      * now rewrite (fr_mpmc _ _ _ FT).
+      * now rewrite (fr_wait _ _ _ FT).
+      * intros q0. rewrite O2. auto.
+  - assert (G : gc_step m t (PRun c0 (KUnlock q (UPYield sp))) c = c).
+    { apply gc_nosched; [reflexivity|]. intros c1 kp1 Q. inversion Q; subst; auto. }
+    rewrite G. destruct sp as [|st]; cbn [pstep] in E.
+    + inversion E; subst. split; [|split; [apply frameL_refl|reflexivity]].
+      constructor; auto. split; auto.
+    + cbn in Hk. rewrite (st12_nw _ Hk) in E.
+      destruct (ret0 _ _ _ _ _ _ c E ltac:(eauto)) as (L & F & W); auto.
+      { intros um p k Q. destruct (PP um p k); contradiction. } { intros um p k Q. destruct (PP um p k); contradiction. }
+      split; [exact L|]. split; [exact F|]. unfold cnt_def. rewrite W. reflexivity.
+Qed.
+
+Lemma pstep0_wake m c t c0 q cnt wc kp m' p' :
+  linv0 m c t (PRun c0 (KWake q cnt wc kp)) -> pstep m t (PRun c0 (KWake q cnt wc kp)) = (m', p') ->
+  step0_goal m c t (PRun c0 (KWake q cnt wc kp)) m' p'.
+Proof.
+  intros [[Hc Hk] B H1 H2 H3 H4 H5] E.
+  destruct c0; try discriminate Hc. destruct q as [|[|[|?]]]; try discriminate Hc.
+  unfold pstate in B. cbn in B. cbn in Hk. cbn in H5. destruct H5 as [Hcnt Hwc].
+  unfold step0_goal. cbn [pstep] in E.
+  destruct (wake_step m t 2 cnt wc kp false) as [m1 r] eqn:Ws.
+  destruct (wake_step0 _ _ _ _ _ _ _ _ _ Ws (fun _ => B) Hk) as (F & R).
+  destruct (frame0_own t _ _ F) as [O1 O2].
+  pose proof (frame0_T t _ _ F) as FT.
+  assert (B' : st12 (fstate m1 t)) by (eapply st12_or; eauto).
+  assert (NJ : r <> WJunk) by (intros ->; exact R).
+  pose proof (wake_step_wc _ _ _ _ _ _ _ _ _ Ws NJ) as WC.
+  set (g' := gc_step m t (PRun (CS3 um p k) (KWake 2 cnt wc kp)) c).
+  assert (G : g_reg g' = g_reg c /\ g_claimed g' = g_claimed c /\ g_trans g' = g_trans c /\
+              myclaim g' t = myclaim c t /\
+              myrel g' t = match sched_of m kp with Some _ => myrel c t + 1 | None => myrel c t end).
+  { subst g'. unfold gc_step, sched_now. cbn [wake_ctx].
+    destruct (sched_of m kp); cbn; rewrite ?upd_same; auto. }
+  destruct G as (G1 & G2 & G3 & G4 & G5).
+  destruct r as [wc' kp'|v|]; [| |destruct R].
+  - inversion E; subst. cbn in WC.
+    split; [|split; [apply frameT_L; exact FT|unfold cnt_def; rewrite (fr_word _ _ _ FT), G1, G2, G3; reflexivity]].
+    constructor; auto.
+    + split; auto.
+    + now rewrite (fr_sched _ _ _ FT).
+    + now rewrite (fr_mpmc _ _ _ FT).
+    + now rewrite (fr_wait _ _ _ FT).
+    + intros q0. rewrite O2. auto.
+    + cbn. rewrite G4, G5, WC. destruct (sched_of m kp); auto.
+  - destruct (ret0 _ _ _ _ _ _ g' E ltac:(eauto)) as (L & F2 & W); auto.
+    { now rewrite (fr_sched _ _ _ FT). } { now rewrite (fr_mpmc _ _ _ FT). } { now rewrite (fr_wait _ _ _ FT). }
+    { intros q0. rewrite O2. auto. } { nocs. } { nocs. }
+    split; [exact L|]. split; [eapply frameL_trans; [apply frameT_L; exact FT|exact F2]|].
+    unfold cnt_def. rewrite W, (fr_word _ _ _ FT), G1, G2, G3. reflexivity.
+Qed.
+
+Lemma pstep0 m c t p m' p' :
+  linv0 m c t p -> pstep m t p = (m', p') -> step0_goal m c t p m' p'.
+Proof.
+  intros L E. destruct p as [| s | c0 kp].
+  - cbn in E. inversion E; subst. split; [|split; [apply frameL_refl|reflexivity]].
+    destruct L. constructor; auto.
+  - destruct L as [[] _ _ _ _ _ _].
+  - destruct kp.
+    + eapply pstep0_start; eauto.
+    + eapply pstep0_acc; eauto.
+    + eapply pstep0_lock; eauto.
+    + eapply pstep0_wait; eauto.
+    + eapply pstep0_unlock; eauto.
+    + eapply pstep0_wake; eauto.
+Qed.
+
+Lemma sim_step x t : sim x -> sim (lstep x t).
+Proof.
+  intros S u. destruct (step_mem_ph x t S) as (_ & A & B & _). cbn [lstep base ph].
+  destruct (Nat.eq_dec u t) as [->|Hu].
+  - now rewrite upd_same.
+  - rewrite upd_other by auto. rewrite B by auto. apply S.
+Qed.
+
+Lemma inv0_init progs : Inv0 (iinit progs).
+Proof.
+  constructor.
+  - intros t. reflexivity.
+  - intros t. constructor; cbn; auto.
+    + right; reflexivity.
+    + intros q Q. discriminate Q.
+  - reflexivity.
+Qed.
+
+Lemma inv0_step x t : Inv0 x -> Inv0 (lstep x t).
+Proof.
+  intros [S L C].
+  pose proof (lstep_mem x t S) as M.
+  destruct (pstep (mem (base x)) t (ph x t)) as [m' p'] eqn:E.
+  destruct (pstep0 _ _ _ _ _ _ (L t) E) as (Lt & F & Cn). cbn [fst] in M.
+  constructor.
+  - apply sim_step; exact S.
+  - intros u. rewrite M. cbn [lstep ph cg]. rewrite E. cbn [snd].
+    destruct (Nat.eq_dec u t) as [->|Hu].
+    + rewrite upd_same. exact Lt.
+    + rewrite upd_other by auto.
+      destruct (gc_other (mem (base x)) t (ph x t) (cg x) u Hu) as [G1 G2].
+      eapply linv0_other; eauto.
+  - rewrite M. cbn [lstep cg]. unfold cnt_def in Cn. lia.
+Qed.
+
+Lemma inv0_reach progs x : ireach progs x -> Inv0 x.
+Proof. induction 1; [apply inv0_init|apply inv0_step; auto]. Qed.
